@@ -311,39 +311,24 @@ func ruleFlushDrainsPending(w *World, r *Report, pfx string, fi *flushInfo) {
 		r.Undecided(rule, "flush", "", fi.Undecided)
 		return
 	}
-	if fi.PendClo == nil {
+	if len(fi.Pend) == 0 || fi.DrainAt == nil {
 		r.HoldsTrivial(rule, "pending pushes", w.pos(fi.Fn.Pos()), "flush pushes directly (no pending list)")
-		return
-	}
-	// the drain loop: the loop containing the call of pushFn
-	var drain *loopInfo
-	for _, l := range naturalLoops(fi.Fn) {
-		if l.Header == fi.Header {
-			continue
-		}
-		for b := range l.Blocks {
-			for _, in := range b.Instrs {
-				if c, ok := in.(*ssa.Call); ok && c.Call.StaticCallee() == fi.PushFn {
-					drain = l
-				}
-			}
-		}
-	}
-	if drain == nil {
-		r.Violated(rule, "pending pushes", w.pos(fi.Fn.Pos()), "remembered pushes are never performed")
 		return
 	}
 	bad := ""
 	after := fi.Header.Succs[1]
+	if fi.Body == after {
+		after = fi.Header.Succs[0]
+	}
 	for b := range reachableFrom(after, true) {
 		if ret, ok := b.Instrs[len(b.Instrs)-1].(*ssa.Return); ok {
-			if !(drain.Header.Dominates(b)) {
+			if !instrDominates(fi.DrainAt, ret) {
 				bad = "flush can return (" + w.instrPos(ret) + ") before the remembered bars are pushed back: on that path every bar collected in this cycle is lost from the container and from the shutdown list"
 			}
 		}
 	}
 	// no close of the abandon signal before the drain either (the heap loop must still accept the pushes)
-	r.Check(bad == "", rule, "pending pushes", w.instrPos(drain.Header.Instrs[0]), "every return after the collection loop is dominated by the push loop", bad)
+	r.Check(bad == "", rule, "pending pushes", w.instrPos(fi.DrainAt), "every return after the collection loop is dominated by the push loop", bad)
 }
 
 // ruleLoopVarCapture (C10): a goroutine spawned inside a loop must not capture a variable cell that is
